@@ -20,10 +20,10 @@ def na(id, reason):
     P[id] = (False, reason)
 
 claim("C01", "other",
-      "Decides structural necessary conditions of crash atomicity/durability on every path of the current source: success replies only after a synchronous commit whose result steers the status (R1), a single commit funnel that writes bitmap bits before the durability point (R2), complete allocation bookkeeping with the right polarity (R3), no raw disk access behind the journal after recovery (R4), format order (R5), self-contained shrink transactions (R6), no operation through a finished transaction, the WRITE stability dispatch and COMMIT flush (R8, R9 = C07.U2/U1). It does not decide that the recovered state equals a prefix of the history - that needs the disk trace and the journal's own correctness.",
+      "Decides structural necessary conditions of crash atomicity/durability on every path of the current source: success replies only after a synchronous commit whose result steers the status (R1), a single commit funnel that writes bitmap bits before the durability point (R2), complete allocation bookkeeping with the right polarity (R3), no raw disk access behind the journal after recovery (R4), format order (R5), self-contained shrink transactions (R6), no operation through a finished transaction, the WRITE stability dispatch and COMMIT flush (R8, R9 = C07.U2/U1), disk decorators delegating every operation incl. Barrier (R10). It does not decide that the recovered state equals a prefix of the history - that needs the disk trace and the journal's own correctness.",
       "must-pass-through / who-may-call / typestate over go/ssa + VTA call graph", "DESIGN.md section 3 C01")
 claim("C03", "other",
-      "Decides the strict two-phase-locking discipline: cached inodes are used only inside their lock's critical section (T1), locks are released only after the commit point and only at frozen early-release sites (T2), abort-and-relock sites revalidate generation and name (T3), the inode-cache slot is looked up only under the inode lock (T4), an aborting transaction drops the cached inodes it modified before it unlocks (T5). Does not decide the existence of a linearization for a history.",
+      "Decides the strict two-phase-locking discipline: cached inodes are used only inside their lock's critical section (T1), locks are released only after the commit point and only at frozen early-release sites (T2), abort-and-relock sites revalidate generation and name (T3), the inode-cache slot is looked up only under the inode lock (T4), an aborting transaction drops the cached inodes it modified before it unlocks (T5), NOENT only where a lookup found nothing (T6). Does not decide the existence of a linearization for a history.",
       "transaction typestate (ESP-style) + must-precede over go/ssa", "DESIGN.md section 3 C03")
 claim("C04", "other",
       "Decides co-update disciplines that keep the on-disk structure well-formed: pointer/bitmap/inode co-update through the commit funnel (S1), name and link co-update (S2), link-count balance across inverse operations (S3), emptiness check before directory unlink (S4), range assertion on pointer-producing paths (S5), only regular files have client-settable content/size (S7), cache slots only under the lock (S8). Not the invariant on any concrete state.",
@@ -47,13 +47,13 @@ claim("C10", "other",
       "Decides write-through of every cached inode mutation before commit (W1), name cache mirrors directory writes (W2), on-disk codecs are inverse and fit their slots (W3), caches dropped on abort (W4), cache slots only under the lock (W6), locks released only after the durability point (W7), no commit of an aborted transaction (W8), refused commits undone (W9). The comparison of two servers' observable state is not decided.",
       "dirty/clean typestate + codec symmetry over go/ssa", "DESIGN.md section 3 C10")
 claim("C11", "other",
-      "Decides that each client-controlled quantity is validated before it reaches a trapping operation for the listed sinks (decode length, inode number range, offset overflow, count vs data, client-sized allocation), the nil-transaction and unchecked-nil-slice crash causes, name checks on both names, directory cookies, sizes settable on regular files only (V12), link counts kept positive (V13), terminators release their locks (V14), and an inventory of reachable explicit panics. Not a proof of panic freedom.",
+      "Decides that each client-controlled quantity is validated before it reaches a trapping operation for the listed sinks (decode length, inode number range, offset overflow, count vs data, client-sized allocation), the nil-transaction and unchecked-nil-slice crash causes, name checks on both names, directory cookies, sizes settable on regular files only (V12), link counts kept positive (V13), terminators release their locks (V14), no use of a possibly-nil inode (V15), no allocation sized by the client (V16), directory code on directories only (V17), and an inventory of reachable explicit panics. Not a proof of panic freedom.",
       "taint + guard dominance over go/ssa", "DESIGN.md section 3 C11")
 claim("C12", "other",
       "Decides zero-on-free on every path with a full-block zero loop (Z1), pointer drops paired with frees and fixed writers of pointer slots (Z2), tail clearing on every unaligned shrink (Z3), client buffers not retained by the journal (Z4), aborted mutations dropped from the cache (Z6), a pending shrink never forgotten (Z7). Contents for a particular history are not decided.",
       "must-precede / pairing / alias flow over go/ssa", "DESIGN.md section 3 C12")
 claim("C13", "other",
-      "Decides that directory cookies cannot equal the start sentinel (P1), that every page makes progress (P2), that attributes/handles are those of the named entry (P3) and that end-of-directory is reported only through the scan loop's own bound test (P4). Completeness under concurrent updates is not decided.",
+      "Decides that directory cookies cannot equal the start sentinel (P1), that every page makes progress (P2), that attributes/handles are those of the named entry (P3) and that end-of-directory is reported only through the scan loop's own bound test (P4), handed-out cookies are accepted back (P5). Completeness under concurrent updates is not decided.",
       "SSA lower-bound lattice + value identity", "DESIGN.md section 3 C13")
 claim("C14", "other",
       "Static lock-discipline check for the shared state of the server packages: cached inodes only under their lock (D1), mutex-guarded fields only under their mutex (D2), statistics only through sync/atomic (D3), nothing lock-protected escapes into a goroutine (D4), configuration written before serving (D5), shared-state inventory with one discipline per struct type (D6), cache slots reached only under the inode lock (D7). Not a whole-program race analysis; dependencies trusted.",
